@@ -147,16 +147,6 @@ def gen_plan(seed, tier="quick", variant=None):
             ops.append({"t": round(t_first + tmo * r7.choice([0.3, 0.6, 1.2, 2.5]), 6), "op": "versions"})
         apiv.clear()
         cfg["warm"] = True
-    if len([o for o in ops if o["op"] == "send"]) > 1 and random.Random(seed * 137 + 3).random() < 0.25:
-        # a result callback that cancels other sends (one issued before it, one after it)
-        r4 = random.Random(seed * 137 + 4)
-        ss = [o for o in ops if o["op"] == "send"]
-        for _ in range(r4.choice([1, 1, 2])):
-            a, b = r4.sample(ss, 2)
-            ops.append({"after_send": a["id"], "op": "cancel", "id": b["id"]})
-            if r4.random() < 0.5 and None not in a["msgs"] and None not in b["msgs"]:
-                b["topic"], b["key"] = a["topic"], a["key"]  # same partition when keyed: they share a payload
-                # (a null message is identified by its key alone, so keys are only shared between sends without one)
     if variant in ("faulty", "clean") and batch and random.Random(seed * 131 + 7).random() < 0.15:
         # late cancel of a send whose partition lookup is still going on (and will fail): its batch-mates must go out
         r2 = random.Random(seed * 131 + 8)
@@ -249,6 +239,23 @@ def gen_plan(seed, tier="quick", variant=None):
             if o["topic"] != "nosuch" and rng.random() < 0.8:
                 o["topic"] = topics[0]["name"]
         pc["every_n"] = max(2, min(len(sends_), rng.choice([4, 6])))
+    if len([o for o in ops if o["op"] == "send"]) > 1 and random.Random(seed * 137 + 3).random() < 0.25:
+        # a result callback that cancels other sends (one issued before it, one after it)
+        r4 = random.Random(seed * 137 + 4)
+        ss = [o for o in ops if o["op"] == "send"]
+        if r4.random() < 0.3 and variant != "recovery":
+            # ... or that stops the producer, or sends the next message
+            a = r4.choice(ss)
+            if r4.random() < 0.5:
+                ops.append({"after_send": a["id"], "op": "stop"})
+            else:
+                ops.append({"after_send": a["id"], "op": "send", "id": 500 + a["id"], "topic": a["topic"], "key": a["key"], "msgs": [5]})
+        for _ in range(r4.choice([1, 1, 2])):
+            a, b = r4.sample(ss, 2)
+            ops.append({"after_send": a["id"], "op": "cancel", "id": b["id"]})
+            if r4.random() < 0.5 and None not in a["msgs"] and None not in b["msgs"]:
+                b["topic"], b["key"] = a["topic"], a["key"]  # same partition when keyed: they share a payload
+                # (a null message is identified by its key alone, so keys are only shared between sends without one)
     t_faults_end = round(max([horizon * 1.6] + [f["t"] for f in faults if "t" in f]) + 0.01, 6)
     post = []
     if variant == "recovery":
@@ -435,27 +442,32 @@ def _run(w, plan):
     def do_op(o):
         kind = o["op"]
         if kind == "send":
-            if state["stopped"]:
+            if state["stopped"] and (o.get("post") or o["id"] % 3):
                 return
+            # (one send in three is also issued to a stopped producer: it must fail at once and reach no broker)
+            if state["stopped"]:
+                res.probe("send_to_a_stopped_producer")
             sid = o["id"]
             msgs = [_msg_bytes(sid, j, m) for j, m in enumerate(o["msgs"])]
             key = _key_bytes(o["key"])
             sim.record("op", "send", sid, o["topic"], len(msgs))
             opseq = len(sim.log) - 1
             sim.mark("op", "send")
+            # recorded before the call: the call itself can dispatch a batch, and a result callback run by that
+            # dispatch can issue further sends, which are later in send order than this one
+            s = sends[sid] = {"id": sid, "topic": o["topic"], "key": key, "msgs": msgs, "t": sim.now, "seq": opseq,
+                              "kvs": [(key, m) for m in msgs], "cancel_seq": None, "post": o.get("post", False),
+                              "count": len(msgs), "bytes": sum(len(m) for m in msgs if m is not None), "w": None}
+            order.append(sid)
             import warnings
             with warnings.catch_warnings():
                 warnings.simplefilter("ignore")
                 d = state["producer"].send_messages(o["topic"], key=key, msgs=msgs)
-            s = sends[sid] = {"id": sid, "topic": o["topic"], "key": key, "msgs": msgs, "t": sim.now, "seq": opseq,
-                              "kvs": [(key, m) for m in msgs], "cancel_seq": None, "post": o.get("post", False),
-                              "count": len(msgs), "bytes": sum(len(m) for m in msgs if m is not None)}
-            order.append(sid)
             s["w"] = watch(d, "send#%d" % sid, sim, on_fire)
             s["w"].d = d
         elif kind == "cancel":
             s = sends.get(o["id"])
-            if s is None or s["w"].fires or state["stopped"]:
+            if s is None or s["w"] is None or s["w"].fires or state["stopped"]:
                 return
             sim.record("op", "cancel", o["id"])
             sim.mark("op", "cancel")
@@ -478,7 +490,8 @@ def _run(w, plan):
             sim.mark("op", "stop")
             state["stop_seq"] = len(sim.log) - 1
             state["stop_t"] = sim.now
-            state["outstanding_at_stop"] = [sid for sid in order if not sends[sid]["w"].fires]
+            # (a send whose Deferred is firing right now - we may be inside its callback - has no watcher record yet)
+            state["outstanding_at_stop"] = [sid for sid in order if sends[sid].get("w") is not None and not sends[sid]["w"].fires]
             state["inflight_at_stop"] = any(not c["done"] for c in produce_calls)
             state["timers_at_stop"] = [dc.sim_creator for dc in w.reactors["p0"].pending() if dc.sim_creator == "producer.py"]
             sd = state["producer"].stop()
@@ -1025,6 +1038,15 @@ def _check_batch_model(w, plan, res, sends, order, produce_calls, state):
                     queue.remove(s)
                     cnt[0] -= s["count"]
                     cnt[1] -= s["bytes"]
+                continue
+            if kind == "op" and e[3] == "send" and i in by_sendseq and by_sendseq[i]["id"] >= 500:
+                # a result callback issued a send: it joins the queue while the resolved batch still counts as in progress
+                s = by_sendseq[i]
+                if s["topic"] not in [t["name"] for t in plan["cfg"]["topics"]]:
+                    return
+                queue.append(s)
+                cnt[0] += s["count"]
+                cnt[1] += s["bytes"]
                 continue
             settle()
         if kind == "op" and e[3] == "send" and i in by_sendseq:
